@@ -5,6 +5,7 @@ import (
 	"reflect"
 	"strings"
 
+	"github.com/freeconf/yang/fc"
 	"github.com/freeconf/yang/meta"
 	"github.com/freeconf/yang/val"
 )
@@ -43,6 +44,9 @@ func NewValuesByString(m []meta.Leafable, objs ...string) ([]val.Value, error) {
 
 func NewValues(m []meta.Leafable, objs ...interface{}) ([]val.Value, error) {
 	var err error
+	if len(objs) > len(m) {
+		return nil, fmt.Errorf("%w. %d values given for %d leafs", fc.BadRequestError, len(objs), len(m))
+	}
 	vals := make([]val.Value, len(m))
 	for i, obj := range objs {
 		vals[i], err = NewValue(m[i].Type(), obj)
